@@ -618,7 +618,7 @@ Fixpoint iter_unrepaired (k : nat) (s : st) (n : native) (o : outcome) : st * li
   end.
 
 Definition starved_state : st := fst (exec init [Write [1; 2; 3] (Sent 1); PeerWrite [9]]).
-Definition both_ready : native := mknative true true false.
+Definition both_ready : native := mknative true true false false false.
 
 Lemma unrepaired_starves_lemma :
   reachable starved_state /\ backlog starved_state = [2; 3] /\
